@@ -1392,7 +1392,9 @@ def replace_chain(S, fn, depth=0):
     if depth < 2:
         for e in walk_block(fn.body):
             if e.get("k") == "call" and e["func"].get("k") == "path":
-                g = [x for x in S.fns if x.name == e["func"]["segs"][-1] and x.body is not None and x.file == fn.file]
+                # the callee, and a function handed to it by name (`filter_string("escape_js", value, escape_js)`)
+                names_ = [e["func"]["segs"][-1]] + [a_["segs"][-1] for a_ in e.get("args", []) if a_.get("k") == "path" and a_.get("segs")]
+                g = [x for x in S.fns if x.name in names_ and x.body is not None and x.file == fn.file]
                 for h in g:
                     c = replace_chain(S, h, depth + 1)
                     if c:
@@ -1498,6 +1500,9 @@ def is_ident_guard(S, cond, file):
     return None
 
 
+_LOCAL_CLOSURES = {}     # name -> closure AST of `let name = |c| ..;` in the predicate being read (set by ident_predicate_sets)
+
+
 def char_class(S, e, var, file, depth=0):
     """the set of character classes for which a boolean expression over the character variable `var` is true: subsets of
     {"alpha", "digit", "_", "$", <other literal chars>}; None when the expression is not understood (or can be true for anything else)"""
@@ -1524,6 +1529,9 @@ def char_class(S, e, var, file, depth=0):
             return {str(c["lit"]["v"]) for c in cases}
         return None
     if k == "call" and e["func"].get("k") == "path" and len(e["args"]) == 1 and expr_text(e["args"][0]).lstrip("*&") == var:
+        clo = _LOCAL_CLOSURES.get(e["func"]["segs"][-1]) if len(e["func"]["segs"]) == 1 else None
+        if clo is not None and len(clo.get("params", [])) == 1 and pat_bindings(clo["params"][0]):
+            return char_class(S, clo["body"], pat_bindings(clo["params"][0])[0], file, depth + 1)
         for g in [y for y in S.fns if y.name == e["func"]["segs"][-1] and y.body is not None and y.file == file]:
             prm = [p_["pat"].get("name") for p_ in g.sig.get("params", []) if p_.get("pat")]
             if len(prm) == 1 and len(g.body) == 1 and g.body[0].get("k") == "expr" and not g.body[0].get("semi"):
@@ -1535,6 +1543,23 @@ def ident_predicate_sets(S, g):
     """(classes accepted for the first character, classes accepted for the others) of a predicate that accepts identifier-shaped text, in either
     spelling: `it.next().is_some_and(|c| START) && it.all(|c| PART)`, or let-else on the first character + a loop with early `return false`"""
     body = g.body or []
+    _LOCAL_CLOSURES.clear()
+    for st in body:
+        if st.get("k") == "let" and (st.get("pat") or {}).get("k") == "ident" and (st.get("init") or {}).get("k") == "closure":
+            _LOCAL_CLOSURES[st["pat"]["name"]] = st["init"]
+    # (C) `match it.next() { Some(first) if START => it.all(|c| PART), _ => false }`
+    if len(body) >= 1 and body[-1].get("k") == "expr" and not body[-1].get("semi") and body[-1]["e"].get("k") == "match" and "next()" in expr_text(body[-1]["e"]["expr"]):
+        m_ = body[-1]["e"]
+        some = [a_ for a_ in m_["arms"] if a_["pat"].get("k") == "tstruct" and "::".join(a_["pat"].get("path", [])) == "Some"]
+        rest = [a_ for a_ in m_["arms"] if a_ not in some]
+        if len(some) == 1 and some[0].get("guard") and all(expr_text(a_["body"]) == "false" for a_ in rest) and rest:
+            fv = pat_bindings(some[0]["pat"])
+            b_ = some[0]["body"]
+            while isinstance(b_, dict) and b_.get("k") == "block" and len(b_["stmts"]) == 1 and b_["stmts"][0].get("k") == "expr":
+                b_ = b_["stmts"][0]["e"]
+            if fv and b_.get("k") == "mcall" and b_["method"] == "all" and b_["args"] and b_["args"][0].get("k") == "closure":
+                qv = pat_bindings(b_["args"][0]["params"][0])[0]
+                return char_class(S, some[0]["guard"], fv[0], g.file), char_class(S, b_["args"][0]["body"], qv, g.file)
     # (A) one expression
     if len(body) >= 1 and body[-1].get("k") == "expr" and not body[-1].get("semi"):
         e = body[-1]["e"]
